@@ -88,7 +88,8 @@ where
         } = self.project();
 
         loop {
-            let mut server_pending = false;
+            // Without a bound replier there is nothing to wait for on that side
+            let mut server_pending = server.is_none();
             let mut stream_pending = false;
 
             // If we've got a request buffered already, we need to write it to the replier
@@ -235,6 +236,9 @@ where
                         let si = &mut server.as_mut().as_pin_mut().unwrap().0;
                         ready!(si.poll_flush_unpin(cx)).unwrap();
                     }
+
+                    // Without requestor streams there is nothing to wait for on that side either
+                    stream_pending = true;
                 }
                 // No messages are available at this time
                 Poll::Pending => {
